@@ -16,7 +16,8 @@ def dispatchBrace : Sexp → Option Sexp
       some (match braceExpr src with
         | .ok s => Sexp.tag "ok" [Svs.toSexp s, Sexp.ofStr (braceChildren src)]
         | .error .valueError => Sexp.atom "ValueError"
-        | .error .overflowError => Sexp.atom "OverflowError")
+        | .error .overflowError => Sexp.atom "OverflowError"
+        | .error .infiniteFloat => Sexp.atom "infinite-float")
     | none => some (Sexp.tag "bad-request" [Sexp.atom "args"])
   | .list [.atom "brace-tokens", src] =>
     match src.asStr? with
